@@ -129,6 +129,7 @@ class C10(Prop):
         # a body may travel with any method (a GET with a body is unusual, not illegal)
         plan["method"] = t.choice(["POST", "POST", "POST", "PUT", "GET", "DELETE", "PATCH"])
         plan["edits_items"] = t.draw(4) == 0
+        plan["asgi_content_length"] = t.draw(3) != 0
         return plan
 
     def describe(self, plan, variant=None):
@@ -215,7 +216,11 @@ class C10(Prop):
         harness_cancel = {"on": False}
 
         async def scenario(loop):
-            req_abs = AbstractRequest(plan.get("method", "POST"), "/", headers=[("content-type", plan["ct"])] if plan["ct"] else [], body=body)
+            hdrs = [("content-type", plan["ct"])] if plan["ct"] else []
+            if plan.get("asgi_content_length"):
+                # servers pass the request's Content-Length on; the messages (and only they) say where the body ends
+                hdrs.append(("content-length", str(len(body))))
+            req_abs = AbstractRequest(plan.get("method", "POST"), "/", headers=hdrs, body=body)
             peer = AsgiHttpPeer(loop, ctx, ctx.sched, req_abs, plan["msgs"], recv_lat_extra=(0.0, 0.0, 0.05, 0.2),
                                 complete_disconnects=False, alias_equal_events=plan.get("alias_events", False))
             if plan.get("alias_events"):
